@@ -28,11 +28,14 @@ func TestMain(m *testing.M) { vt.Main(m) }
 
 // Boundary says what happens after write i.
 type Boundary struct {
-	After  int `json:"after"`  // index of the write after which the writer is closed
-	Mode   int `json:"mode"`   // 0 resume at the reported size, 1 resume with offset -1
-	Wrong  int `json:"wrong"`  // != 0: first resume at size+Wrong and send Junk bytes (must be refused)
-	Junk   int `json:"junk"`   // number of junk bytes sent at the wrong offset (>= 1)
-	HowEnd int `json:"howend"` // how the wrong-offset writer is driven: 0 write+close, 1 write+commit, 2 write, closed only when the upload has reached that offset
+	After int `json:"after"` // index of the write after which the writer is closed
+	Mode  int `json:"mode"`  // 0 resume at the reported size, 1 resume with offset -1
+	Wrong int `json:"wrong"` // != 0: first resume at size+Wrong and send Junk bytes (must be refused)
+	Junk  int `json:"junk"`  // number of junk bytes sent at the wrong offset (>= 1)
+	// EmptyFirst: the wrong-offset writer is first given a Write of no bytes (whatever that returns, it
+	// sends no data and so cannot make the offset right)
+	EmptyFirst bool `json:"empty_first,omitempty"`
+	HowEnd     int  `json:"howend"` // how the wrong-offset writer is driven: 0 write+close, 1 write+commit, 2 write, closed only when the upload has reached that offset
 	// Interlope: between opening the wrong-offset writer and its first Write another handle is opened on
 	// the same session (1: at offset -1, as the server's upload-status request does; 2: at the right offset)
 	Interlope int `json:"interlope,omitempty"`
@@ -233,6 +236,10 @@ func run(s Script, v *vt.V) {
 							w3.Close()
 						}
 						v.Class("wrong-offset-with-second-handle")
+					}
+					if b.EmptyFirst {
+						w2.Write(nil)
+						v.Class("wrong-offset-empty-write-first")
 					}
 					_, perr = w2.Write(junk)
 					if perr != nil && b.Junk%2 == 0 {
@@ -445,6 +452,7 @@ func genScript(t *rapid.T) Script {
 			if rapid.IntRange(0, 3).Draw(t, "wrongOffset") == 0 {
 				b.Wrong = rapid.SampledFrom([]int{1, 1, 2, 100, -1, -2}).Draw(t, "delta")
 				b.Junk = rapid.SampledFrom([]int{1, 2, 10, 9000}).Draw(t, "junk")
+				b.EmptyFirst = rapid.IntRange(0, 3).Draw(t, "emptyFirst") == 0
 				b.HowEnd = rapid.IntRange(0, 2).Draw(t, "howEnd")
 				b.Interlope = rapid.SampledFrom([]int{0, 0, 1, 2}).Draw(t, "interlope")
 			}
@@ -461,7 +469,7 @@ func genScript(t *rapid.T) Script {
 var prop = &vt.Prop[Script]{
 	ID:   "C04",
 	Name: "ChunkedUpload",
-	Rule: "content lengths {0,1,2,3, c-1,c,c+1, 2c-1,2c,2c+1, 3c+2 (c=8192); thorough also around 64 KiB} and small; partition into <=6 Write calls (sizes incl. 0, 1, c-1..c+1, larger than the content); chunk hint {-1,0,1,100,8191,8192,8193,20000}; any subset of write boundaries closed+resumed with explicit offset or -1 (-1 with exactly one byte received excluded as stated); optional probe at size+delta with junk data that must be refused with ErrRangeInvalid (416 on every hop) and leave the upload unaltered, also when a second handle is opened on the session (at -1 or at the right offset) between opening the wrong-offset writer and its first Write, and when the refused writer is closed only once the upload has reached the offset it aimed at; right/wrong commit digest; optionally the n-th data-carrying request of the caller's client fails before it is sent and the caller repeats the failed Write / Commit (nothing buffered may get lost); stacks {mem, 1 hop, 2 hops, unify(mem,mem) both policies, http over unify, unify over http, debug+http(NoSinglePost)+debug}; oracle = Size() after every step, commit descriptor, bytes read back from the top and from every member registry; non-trivial = >=1 resume, >=2 writes or length <= 2; distinct = whole script",
+	Rule: "content lengths {0,1,2,3, c-1,c,c+1, 2c-1,2c,2c+1, 3c+2 (c=8192); thorough also around 64 KiB} and small; partition into <=6 Write calls (sizes incl. 0, 1, c-1..c+1, larger than the content); chunk hint {-1,0,1,100,8191,8192,8193,20000}; any subset of write boundaries closed+resumed with explicit offset or -1 (-1 with exactly one byte received excluded as stated); optional probe at size+delta with junk data that must be refused with ErrRangeInvalid (416 on every hop) and leave the upload unaltered, also when the wrong-offset writer is given a Write of no bytes first, when a second handle is opened on the session (at -1 or at the right offset) between opening the wrong-offset writer and its first Write, and when the refused writer is closed only once the upload has reached the offset it aimed at; right/wrong commit digest; optionally the n-th data-carrying request of the caller's client fails before it is sent and the caller repeats the failed Write / Commit (nothing buffered may get lost); stacks {mem, 1 hop, 2 hops, unify(mem,mem) both policies, http over unify, unify over http, debug+http(NoSinglePost)+debug}; oracle = Size() after every step, commit descriptor, bytes read back from the top and from every member registry; non-trivial = >=1 resume, >=2 writes or length <= 2; distinct = whole script",
 	Gen:  genScript,
 	Run:  run,
 }
